@@ -261,6 +261,7 @@ class Program:
         except OSError:
             known = set()
         self.pulled_up: dict[str, str] = {}
+        shared: dict[str, list[tuple[ClassInfo, str, str]]] = {}
         for ci in list(self.classes.values()):
             for base in self.mro(ci)[1:]:
                 for m, fn in base.methods.items():
@@ -272,8 +273,19 @@ class Program:
                     self.funcs.setdefault(alias, fn)
                     if fn.qual not in known and alias in known:
                         self.pulled_up[fn.qual] = alias
+                        shared.setdefault(fn.qual, []).append((ci, m, alias))
         for old, alias in sorted(self.pulled_up.items()):
             fn = self.funcs[old]
+            subs = shared.get(old, [])
+            if len(subs) > 1:
+                # one body pulled up from several known classes: each of them gets its own view of it (same syntax
+                # tree, `self` typed as that class - a field the base declares loosely and the subclass narrows,
+                # `policy: Any` / `policy: "Policy"`, then resolves as it did before the pull-up)
+                for ci, m, al in subs:
+                    clone = FuncInfo(al, fn.module, fn.node, cls=ci, parent=None, nested=fn.nested, local_imports=fn.local_imports)
+                    self.funcs[al] = clone
+                    ci.methods[m] = clone
+                continue
             if fn.qual == old:
                 fn.qual = alias
 
@@ -301,9 +313,12 @@ class Program:
                     tree = ast.parse(src, filename=path)
                 except SyntaxError as exc:  # the build would fail too
                     raise AnalysisError(f"cannot parse {path}: {exc}") from exc
-                from .normalise import desugar_partials, normalise_module
+                from .normalise import desugar_partials, flatten_settings_records, normalise_module
 
+                flat = flatten_settings_records(name, tree)
                 ren = normalise_module(name, tree)
+                for q, mp in flat.items():
+                    ren.setdefault(q, {}).update(mp)
                 desugar_partials(tree)
                 if ren:
                     self.__dict__.setdefault("alpha_renamed", {}).update(ren)
@@ -596,7 +611,7 @@ class Program:
                     out |= self.parse_ann(e, m, hint, fi, _depth + 1)
                 return out
             if base in ("Callable", "collections.abc.Callable", "typing.Callable"):
-                cat = RAW_CALLABLE_NAME_CATEGORY.get(hint or "", f"callable:{hint}")
+                cat = RAW_CALLABLE_NAME_CATEGORY.get((hint or "").lstrip("_"), f"callable:{hint}")
                 return frozenset({("cb", cat)})
             if base in ("tuple", "Tuple"):
                 elts = ann.slice.elts if isinstance(ann.slice, ast.Tuple) else [ann.slice]
@@ -796,7 +811,12 @@ class Program:
                     elif self.is_enum(ci) and e.attr in ("value", "name"):
                         out |= frozenset({("ext", "str")})
                     else:
-                        out |= ANY
+                        # inherited from a library base class (`class _Window(deque[float])`): that class's member
+                        ext = [b for c in self.mro(ci) for b in self.bases(c) if isinstance(b, str) and "." in b and not b.endswith((".NamedTuple", ".Generic", ".Protocol", ".Enum"))]
+                        if len(ext) == 1:
+                            out |= frozenset({("ext", f"{ext[0]}.{e.attr}")})
+                        else:
+                            out |= ANY
                 elif a[0] == "type":
                     ci = self.classes[a[1]]
                     meth = self.find_method(ci, e.attr)
